@@ -493,3 +493,57 @@ Definition get_dtop (s : sx) : option dtop :=
       else None
   | _ => None
   end.
+
+(* ==== where the tool and the documentation are known to part (used by Proofs/DocSemTop and by the harness) ==== *)
+Definition nonempty {A} (l : list A) : bool := match l with [] => false | _ => true end.
+(* ---- the side condition ------------------------------------------------------------------------------ *)
+(* an item that simplification folds to a constant *)
+Definition triv_true (i : ditem) : bool := is_always true (simplify (elab_item i)).
+Definition triv_false (i : ditem) : bool := is_always false (simplify (elab_item i)).
+
+(* the argument list that simplification folds to `*` although it asks for an argument:
+   at least one item, every item trivially true, every exclusion trivially false *)
+Definition star_folded (d : dargs) : bool :=
+  match d with
+  | AItems pos neg => nonempty pos && forallb triv_true pos && forallb triv_false neg
+  | _ => false
+  end.
+
+(* a trivially-true exclusion is harmless when there is also a positive item
+   (the list then never matches, with or without arguments) *)
+Definition excl_ok (d : dargs) : bool :=
+  match d with
+  | AItems pos neg => negb (existsb triv_true neg) || nonempty pos
+  | _ => true
+  end.
+
+Definition args_ok (d : dargs) (l : list varg) : bool :=
+  excl_ok d && (nonempty l || negb (star_folded d)).
+
+Definition pat_ok (p : dpat) (m : vmsg) : bool :=
+  match dp_body p with
+  | BFull _ _ (Some d) => args_ok d (vm_args m)
+  | _ => true
+  end.
+
+Definition side_ok (e : dtop) (m : vmsg) : bool :=
+  match e with
+  | TPats pos neg => forallb (fun p => pat_ok p m) pos && forallb (fun p => pat_ok p m) neg
+  | _ => true
+  end.
+
+
+(* which corner a pattern falls into on a message: 0 none, 1 all-star list on a message without
+   arguments, 2 exclusion-only list with an exclusion that accepts everything, 3 both *)
+Definition args_shape (d : dargs) (l : list varg) : Z :=
+  (if excl_ok d then 0 else 2) + (if nonempty l || negb (star_folded d) then 0 else 1).
+Definition pat_shape (p : dpat) (m : vmsg) : Z :=
+  match dp_body p with
+  | BFull _ _ (Some d) => args_shape d (vm_args m)
+  | _ => 0
+  end.
+Definition side_shapes (e : dtop) (m : vmsg) : list Z :=
+  match e with
+  | TPats pos neg => List.filter (fun z => negb (z =? 0)) (map (fun p => pat_shape p m) (pos ++ neg))
+  | _ => []
+  end.
